@@ -503,8 +503,6 @@ func c08Pump(ctx *core.Ctx) {
 			}
 		}
 	}
-	c08Scaled(ctx)
-	c08Nested(ctx)
 }
 
 // ---- nested pumping: open^n inner close^n ------------------------------------------------
@@ -771,8 +769,8 @@ func c08ScaledOne(ctx *core.Ctx, fam string) {
 		}
 		prev, prevSize = o.steps, size
 		// the weighted builder from every start node
-		if n > 32 && !ctx.Thorough() {
-			continue
+		if (n > 32 || size > 4000) && !ctx.Thorough() {
+			continue // quick: start orders for models up to 4 KB and 32 levels
 		}
 		w, wch, runs := c08StartOrders(ctx, pm)
 		ctx.Trans(runs)
@@ -1111,6 +1109,15 @@ func c08Run(ctx *core.Ctx) {
 			ctx.Flag("c08:steps-live")
 		}
 	}
+	// the sections that carry vacuity guards and cost little come first, the large enumerations last: a wall-clock cap
+	// then cuts the tail of an enumeration, never a whole section
+	c08Faults(ctx)
+	c08JSONYAML(ctx)
+	c08Scaled(ctx)
+	c08Nested(ctx)
+	c08Pump(ctx)
+	c08MergeSets(ctx)
+	c08Corpus(ctx)
 	// (a) all lexeme strings in every context
 	k := 3
 	base := 0
@@ -1132,11 +1139,6 @@ func c08Run(ctx *core.Ctx) {
 			base += gen.Pow(len(alpha), n)
 		}
 	}
-	c08MergeSets(ctx)
-	c08Corpus(ctx)
-	c08JSONYAML(ctx)
-	c08Faults(ctx)
-	c08Pump(ctx)
 }
 
 func init() {
